@@ -154,8 +154,9 @@ def one(case, pl):
     calls = []
     orig = pbvi_mod.point_based_value_iteration
 
-    def recording(pomdp_, belief_set, value_convergence_epsilon, horizon=None):
-        r = orig(pomdp_, belief_set, value_convergence_epsilon=value_convergence_epsilon, horizon=horizon)
+    def recording(pomdp_, belief_set, value_convergence_epsilon, horizon=None, *args, **kw):
+        # extra arguments a changed _solve may pass are handed through untouched
+        r = orig(pomdp_, belief_set, value_convergence_epsilon, horizon, *args, **kw)
         bv = np.array(r["alpha_vectors"])
         bb = np.array(belief_set)
         new_bv = r["belief_action_alpha_vectors"][np.arange(len(bb)), :, r["belief_action_indices"]]
@@ -167,8 +168,7 @@ def one(case, pl):
         elif it == 0:
             prev = np.zeros_like(bv)
         else:
-            prev = np.array(orig(pomdp_, belief_set, value_convergence_epsilon=value_convergence_epsilon,
-                                 horizon=it)["alpha_vectors"])
+            prev = np.array(orig(pomdp_, belief_set, value_convergence_epsilon, it, *args, **kw)["alpha_vectors"])
         cand = np.einsum("bsa->bas", r["belief_action_alpha_vectors"])
         calls.append({"belief_set": [[fj(x) for x in b] for b in bb],
                       "prev_alpha_vectors": [[fj(x) for x in v] for v in prev],
